@@ -206,6 +206,7 @@ func (d *recDB) TempDatabase() (isaac.TempDatabase, error) {
 type noisyProcessor struct {
 	base.OperationProcessor
 	noise func(string)
+	done  func(string)
 }
 
 func (p noisyProcessor) Process(ctx context.Context, op base.Operation, gs base.GetStateFunc) (
@@ -213,6 +214,7 @@ func (p noisyProcessor) Process(ctx context.Context, op base.Operation, gs base.
 ) {
 	p.noise("process-" + op.Fact().Hash().String())
 	r, re, err := p.OperationProcessor.Process(ctx, op, gs)
+	p.done(op.Fact().Hash().String())
 	p.noise("processed-" + op.Fact().Hash().String())
 	return r, re, err
 }
@@ -242,10 +244,12 @@ type Obs struct {
 	// per proposal entry (proposal operations, then the voteproof's expels in Expels() order):
 	// 0 = no slot in the operations tree, 1 = not in state, 2 = in state
 	Slots     []int
-	LeafEntry []int    // the proposal entry each leaf of the operations tree belongs to
-	OpsLeafs  []string // leaves of the operations tree in index order: key + "|" + reason
-	StLeafs   []string // leaves of the states tree in index order
-	StKeys    []string // state key at each index of the states tree
+	LeafEntry []int // the proposal entry each leaf of the operations tree belongs to
+	// the order in which the Process calls of the worker jobs finished (schedule dependent)
+	ProcessOrder []string
+	OpsLeafs     []string // leaves of the operations tree in index order: key + "|" + reason
+	StLeafs      []string // leaves of the states tree in index order
+	StKeys       []string // state key at each index of the states tree
 	// resulting values
 	SufChanged   bool
 	SufHeight    int64
@@ -352,6 +356,12 @@ func (c *Case) RunProposal(pr base.ProposalSignFact, order []int, sc Sched) (obs
 		return st, found, nil
 	}
 
+	var domu sync.Mutex
+	done := func(h string) {
+		domu.Lock()
+		obs.ProcessOrder = append(obs.ProcessOrder, h[:6])
+		domu.Unlock()
+	}
 	fs := &recFS{states: map[uint64]base.State{}, opsInFS: map[uint64]base.Operation{}, noise: noise}
 	db := &recDB{}
 	var writer *isaacblock.Writer
@@ -396,7 +406,7 @@ func (c *Case) RunProposal(pr base.ProposalSignFact, order []int, sc Sched) (obs
 		if err != nil {
 			return nil, err
 		}
-		return noisyProcessor{OperationProcessor: p, noise: noise}, nil
+		return noisyProcessor{OperationProcessor: p, noise: noise, done: done}, nil
 	}
 	args.NewWriterFunc = func(proposal base.ProposalSignFact, gs base.GetStateFunc) (isaac.BlockWriter, error) {
 		writer = isaacblock.NewWriter(proposal, gs, db, func(isaac.BlockWriteDatabase) error { return nil }, fs, sc.Workers)
